@@ -5,7 +5,10 @@
    _ConfigStack.render_value (first hit).  No proofs here.
 
    Names, keys and values are numbers.  A section has an optional "inherit" list, an optional
-   "class" (id of the callable), an optional "inherit-only" flag and ordinary settings. *)
+   "class" (id of the callable), an optional "inherit-only" flag and ordinary settings.
+   Values are opaque codes: the harness uses typed keys (str, bool, list) and lets code 0 stand
+   for the FALSY rendered value of the key's type ("" / False / []) and 1..99 for truthy ones.
+   The first hit returns the value whatever it is — the model never inspects a value. *)
 From Coq Require Import List NArith ZArith Bool Arith.
 Import ListNotations.
 From Verif Require Import Base.Val C42.Model_C42.   (* split_on, byte-string literals *)
